@@ -144,7 +144,16 @@ func TestVerif_C01(t *testing.T) {
 				specs[0] = verifgen.OutSpec{Type: common.OutputTypeWithdrawalSubmit, Amount: specs[0].Amount,
 					Withdrawal: &common.WithdrawalData{Address: "addr", Tag: "tag"}}
 			}
-			switch rng.Intn(10) {
+			var signIns []*verifgen.Out
+			switch rng.Intn(11) {
+			case 10: // an output that does not exist: the index of a real output shifted by a multiple of 256
+				pert = "input-index-shifted-by-256"
+				orig := ins[rng.Intn(len(ins))]
+				al := *orig
+				al.Index += uint([]int{256, 512, 768}[rng.Intn(3)])
+				signIns = append(append([]*verifgen.Out{}, ins...), orig) // signed with the keys of the real output
+				ins = append(ins, &al)
+				specs = append(specs, w.spec(al.Amount, 2))
 			case 9: // the same output listed twice, its amount claimed twice
 				pert = "duplicated-input"
 				dup := ins[rng.Intn(len(ins))]
@@ -195,14 +204,17 @@ func TestVerif_C01(t *testing.T) {
 				specs = append(specs, w.spec(verifgen.Units(h), 2))
 			}
 			raw := verifgen.BuildTx(asset, ins, specs, nil, nil)
+			if signIns == nil {
+				signIns = ins
+			}
 			if rng.Intn(3) == 0 {
-				signers := verifgen.FirstN(ins)
-				tx, err = verifgen.SignAggregate(raw, ins, signers, verifgen.Seed64(fmt.Sprint("agg", i)))
+				signers := verifgen.FirstN(signIns)
+				tx, err = verifgen.SignAggregate(raw, signIns, signers, verifgen.Seed64(fmt.Sprint("agg", i)))
 				if err != nil {
-					tx = verifgen.SignMap(raw, ins, signers)
+					tx = verifgen.SignMap(raw, signIns, signers)
 				}
 			} else {
-				tx = verifgen.SignMap(raw, ins, verifgen.FirstN(ins))
+				tx = verifgen.SignMap(raw, signIns, verifgen.FirstN(signIns))
 			}
 		case c == 9 && rng.Intn(2) == 0: // a special input (mint or deposit) combined with ordinary inputs, either order
 			kind = "special+ordinary"
